@@ -1,6 +1,7 @@
 package main
 
 import (
+	"bufio"
 	"bytes"
 	"context"
 	"encoding/json"
@@ -88,6 +89,24 @@ type failWriter struct {
 	failAt int // 0 = never
 	short  bool
 	once   bool // transient failure: only write number failAt is rejected
+	full   bool // the failing writes take all their bytes and still report the error (write-behind, quota, network sinks)
+}
+
+// flusher is a destination with a Flush method (as bufio.Writer, tabwriter, gzip have) that passes writes straight on.
+type flusher struct{ w io.Writer }
+
+func (f flusher) Write(p []byte) (int, error) { return f.w.Write(p) }
+func (f flusher) Flush() error                { return nil }
+
+// dest wraps the writer in the kind of destination the case asks for.
+func (r c14Replay) dest(w *failWriter) io.Writer {
+	switch r.Dest {
+	case "flusher":
+		return flusher{w}
+	case "bufio":
+		return bufio.NewWriterSize(w, 32)
+	}
+	return w
 }
 
 func (w *failWriter) Write(p []byte) (int, error) {
@@ -96,6 +115,10 @@ func (w *failWriter) Write(p []byte) (int, error) {
 		e := w.err
 		if e == nil {
 			e = errInjW
+		}
+		if w.full {
+			w.buf.Write(p)
+			return len(p), e
 		}
 		if w.short && w.writes == w.failAt && len(p) > 1 {
 			w.buf.Write(p[:len(p)/2])
@@ -117,6 +140,8 @@ type c14Replay struct {
 	Once   bool   `json:"once"` // transient: exactly one write is rejected, later writes are accepted
 	RMode  string `json:"reader_mode,omitempty"`
 	Flav   string `json:"error_flavour,omitempty"`
+	Full   bool   `json:"writer_takes_all_bytes_and_fails,omitempty"`
+	Dest   string `json:"destination,omitempty"` // "" the writer itself | flusher | bufio
 }
 
 func c14Opts(mode string) []gtree.Option {
@@ -138,8 +163,12 @@ func c14Opts(mode string) []gtree.Option {
 }
 
 // c14Call runs one output call with the given reader and writer.
-func c14Call(r c14Replay, rd *failReader, w *failWriter) (err error, pan string) {
+func c14Call(r c14Replay, rd *failReader, fw *failWriter) (err error, pan string) {
 	opts := c14Opts(r.Mode)
+	var w io.Writer = fw
+	if fw != nil {
+		w = r.dest(fw)
+	}
 	pan = sut.Guard(func() {
 		switch r.Route {
 		case "md":
@@ -181,7 +210,7 @@ func c14Case(c *rep.Ctx, r c14Replay, full string) {
 	if r.Reader >= 0 {
 		rd.fail = r.Reader
 	}
-	w := &failWriter{failAt: r.Writer, short: r.Short, once: r.Once, err: flavour(r.Flav, errInjW)}
+	w := &failWriter{failAt: r.Writer, short: r.Short, once: r.Once, full: r.Full, err: flavour(r.Flav, errInjW)}
 	if r.Reader < 0 {
 		rd = &failReader{data: r.Doc, fail: len(r.Doc)}
 		// a healthy reader ends with io.EOF
@@ -241,7 +270,7 @@ func c14CallEOF(r c14Replay, w *failWriter) (error, string) {
 // c14After: after a call that met a failing reader or writer, the same call with healthy I/O gives the complete output.
 func c14After(c *rep.Ctx, r c14Replay, full string) {
 	h := r
-	h.Reader, h.Writer, h.Short, h.Once = -1, 0, false, false
+	h.Reader, h.Writer, h.Short, h.Once, h.Full, h.Dest = -1, 0, false, false, false, ""
 	w := &failWriter{}
 	err, pan := c14CallEOF(h, w)
 	if pan != "" || err != nil || w.buf.String() != full {
@@ -261,6 +290,9 @@ func c14JudgeWriter(c *rep.Ctx, r c14Replay, w *failWriter, err error, pan strin
 	}
 	if err == nil && w.buf.String() != full {
 		c.Violation("C14|writer-failure-swallowed|"+r.Route+"|"+r.Mode, fmt.Sprintf("%s: the call returned nil but the writer accepted only %q of %q", desc, w.buf.String(), full), size, r)
+	}
+	if err == nil && r.Full && w.writes >= r.Writer {
+		c.Violation("C14|writer-error-with-full-count-swallowed|"+r.Route+"|"+r.Mode, fmt.Sprintf("%s: write %d took its bytes and reported an error, the call returned nil", desc, r.Writer), size, r)
 	}
 }
 
@@ -341,6 +373,14 @@ func init() {
 						r := base
 						r.Writer, r.Once = j, true
 						c14Case(c, r, full)
+						r = base
+						r.Writer, r.Full = j, true
+						c14Case(c, r, full)
+						if j <= 2 {
+							r = base
+							r.Writer, r.Dest = j, "flusher"
+							c14Case(c, r, full)
+						}
 						if j <= 3 {
 							for _, fl := range []string{"canceled-wrapped", "deadline-wrapped", "eof-wrapped"} {
 								r := base
@@ -355,6 +395,14 @@ func init() {
 							r.Reader = i
 							c.Nontrivial()
 							c14Case(c, r, full)
+							if i%3 == 0 || i == len(doc)-1 {
+								// destinations that have a Flush method of their own
+								for _, ds := range []string{"flusher", "bufio"} {
+									r := base
+									r.Reader, r.Dest = i, ds
+									c14Case(c, r, full)
+								}
+							}
 							if i <= 6 || i%5 == 0 {
 								for _, rm := range []string{"once-eof", "once-resume", "same-read"} {
 									r := base
